@@ -84,6 +84,16 @@ def runRestRT (h : String) : String := withRestOp h fun op =>
       let same := canonLeaves back == canonLeaves m
       out ++ " dec " ++ renderLeaves back ++ " same=" ++ (if same then "1" else "0")
 
+/-- An RPC client in front of a REST-only service: the backend is invoked once with the request the
+    rule prescribes, or not at all when the message does not fit the rule. -/
+def runRestOut (h : String) : String := withRestOp h fun op =>
+  let m := normalizeLeaves op.schema op.leaves
+  match restEncode op.schema reqMsgName op.rule m with
+  | .error _ => "disp=0 err"
+  | .ok enc =>
+    let bodyS := match enc.body with | none => "none" | some b => renderLeaves b
+    s!"disp=1 enc {bytesToString op.rule.httpMethod} {toHex enc.path} {toHex (encodeQuery enc.query)} body={bodyS}"
+
 def runRestIn (h : String) : String := withRestOp h fun op =>
   let body : Leaves := if op.rule.body == [0x2A] then normalizeLeaves op.schema op.leaves else []
   match restDecode op.schema reqMsgName op.rule op.method op.epath op.qparsed body with
